@@ -58,6 +58,13 @@ func runC16(c *mon.Ctx) {
 		m1 := gen.RandomModel(r, gen.ModelOpts{MaxPES: 3, MaxPMT: 2, MaxSI: 2, MaxUnits: 4, MaxPESLen: 3000})
 		m2 := gen.RandomModel(r, gen.ModelOpts{MaxPES: 2, MaxPMT: 1, MaxSI: 2, MaxUnits: 3, MaxPESLen: 200})
 		s1, s2 := m1.Build(r), m2.Build(r)
+		if i%2 == 0 {
+			// rich content: every optional PES header field, adaptation fields with private data, tables with descriptors of all kinds
+			s1 = richStream(r)
+			if i%4 == 0 {
+				s2 = richStream(r)
+			}
+		}
 		for _, api := range []string{"data", "packet"} {
 			aliasCase(c, i, r, s1, s2, api)
 		}
@@ -333,6 +340,9 @@ func runC16Race(c *mon.Ctx) {
 					in.kind = []string{"demux-data", "demux-packet"}[r.IntN(2)]
 					m := gen.RandomModel(r, gen.ModelOpts{MaxPES: 3, MaxPMT: 2, MaxSI: 2, MaxUnits: 4, MaxPESLen: 2500})
 					in.in = m.Build(r).Bytes
+					if r.IntN(2) == 0 {
+						in.in = richStream(r).Bytes
+					}
 				}
 				in.solo = runInstance(in, nil, nil, false)
 				inst[g] = in
